@@ -176,7 +176,7 @@ async def oracle_inproc(mosaik_config, sim_name, sim_config, mosaik_remote):
 BASE_META = {
     'api_version': '3.0',
     'type': 'event-based',
-    'models': {'M': {'public': True, 'params': [], 'attrs': ['it', 'it2', 'im', 'im2', 'op', 'oe']}},
+    'models': {'M': {'public': True, 'params': [], 'attrs': ['it', 'it2', 'im', 'im2', 'op', 'op2', 'oe']}},
 }
 
 IN_ATTR = {'time-based': ['im'], 'event-based': ['it'], 'hybrid': ['it', 'im']}
@@ -257,7 +257,7 @@ class SymSim(mosaik_api_v3.Simulator):
         quiet = k >= CTX['K']
         for eid, attrs in outputs.items():
             for a in attrs:
-                if a == 'op' or self.typ == 'time-based':
+                if a in ('op', 'op2') or self.typ == 'time-based':
                     data.setdefault(eid, {})[a] = self._tok(eid, k, a)
                     only_events = False
                 elif quiet:
@@ -396,7 +396,7 @@ def build(world, ref, topo, eng, cfg):
         world.connect(ents[src][se], ents[dst][de], (sa, da), **kw)
         if ref is not None:
             st, dt = topo['types'][src], topo['types'][dst]
-            persistent = sa == 'op' or st == 'time-based'
+            persistent = sa in ('op', 'op2') or st == 'time-based'
             trigger = da.startswith('it') or dt == 'event-based'
             if dt == 'time-based':
                 trigger = False
